@@ -137,6 +137,9 @@ def run(ctx) -> None:
     # ---- R6 ---------------------------------------------------------------------
     check_qualifiers(ctx, "C06.R6")
     check_emit_names_current(ctx, "C06.R3")
+    from .c14 import check_handler_dict_translated
+
+    check_handler_dict_translated(ctx, "C06.R3", None)
 
     # ---- R9: the node cache addresses arguments by the function's own parameter names --------------------------
     # definition_hash ignores renames and the identity carries no input wiring, so two differently wired clones of one
